@@ -280,6 +280,7 @@ pub fn run(op: &str, inp: &Value) -> R<Value> {
         "u2f_encode" => u2f_encode(inp),
         "u2f_register_new" => u2f_register_new(inp),
         "dispatch" => crate::mock::dispatch(inp),
+        "exchange" => crate::mock::exchange(inp),
         #[cfg(feature = "arbitrary")]
         "arbitrary" => crate::arb::arbitrary(inp),
         _ => Err(format!("unknown op {}", op)),
